@@ -19,7 +19,7 @@
                         (closed witness; the same as Refuted/C03_resave_extra_data.v) *)
 From Coq Require Import List Arith Bool ZArith Lia.
 From PV Require Import Lib.Py Model.Graph Model.Persist.
-From PV Require Import Proofs.C03Sort Proofs.C03 Proofs.C03Example.
+From PV Require Import Proofs.C01Base Proofs.C01Inv Proofs.C01 Proofs.C03Sort Proofs.C03Graph Proofs.C03 Proofs.C03Example.
 Import ListNotations.
 Local Open Scope nat_scope.
 
@@ -53,6 +53,12 @@ Section DictMore.
   Proof.
     induction d as [|[k0 v0] d IH]; cbn [d_del app]; auto.
     destruct (str_eqb k0 k); auto. now rewrite IH.
+  Qed.
+  Lemma d_get_app d d' k :
+    d_get (d ++ d') k = match d_get d k with Some v => Some v | None => d_get d' k end.
+  Proof.
+    induction d as [|[k0 v0] d IH]; cbn [d_get app]; auto.
+    destruct (str_eqb k0 k); auto.
   Qed.
 End DictMore.
 
@@ -179,6 +185,65 @@ Section Resave.
     intros H. apply (resave_loaded cdeps csem rsem _ M' H).
     unfold to_text. cbn [fst]. rewrite d_get_set. keq. discriminate.
   Qed.
+
+  (* ---- the document written by a LOADED model, as a list.  extra_data without
+     cycles / excel_hash / cell_map and with the model's own file name: the three
+     missing keys are appended in that order, the file name keeps its place *)
+  Lemma doc_of_fresh_extra M X :
+    pm_extra M = Some X -> d_get X k_cycles = None -> d_get X k_hash = None -> d_get X k_cells = None ->
+    d_get X k_filename = Some (TV (pm_filename M)) ->
+    fst (to_text G M) =
+      X ++ [(k_cycles, TV (pm_cycles M)); (k_hash, TV (pm_hash M)); (k_cells, TCells (saved_cells G M))].
+  Proof.
+    destruct M as [wb code s ord cyc fn h ex].
+    cbn [pm_extra pm_cycles pm_hash pm_filename]. intros -> X1 X2 X3 XF.
+    unfold to_text. cbn [fst pm_extra pm_cycles pm_hash pm_filename].
+    rewrite (d_set_absent X _ _ X1).
+    rewrite (d_set_absent (X ++ _) k_hash)
+      by (rewrite d_get_app, X2; cbn [d_get]; keq; reflexivity).
+    rewrite (d_set_absent ((X ++ _) ++ _) k_cells)
+      by (rewrite !d_get_app, X3; cbn [d_get]; keq; reflexivity).
+    rewrite <- !app_assoc. rewrite d_set_app_present by congruence.
+    rewrite (d_set_same X _ _ XF). reflexivity.
+  Qed.
+
+  Lemma loaded_doc_shape cdeps csem rsem f M' v :
+    from_text G cdeps csem rsem f = Ok M' -> d_get f k_filename = Some (TV v) ->
+    fst (to_text G M') =
+      d_del (d_del (d_del f k_cycles) k_cells) k_hash ++
+      [(k_cycles, TV (pm_cycles M')); (k_hash, TV (pm_hash M')); (k_cells, TCells (saved_cells G M'))].
+  Proof.
+    unfold from_text. intros H HF.
+    destruct (d_get f k_cells) as [[v0|l]|]; try discriminate.
+    destruct (existsb _ l); try discriminate.
+    destruct (d_get f k_hash) as [[h|l']|]; try discriminate.
+    inversion H as [E]. clear H.
+    apply doc_of_fresh_extra.
+    - reflexivity.
+    - rewrite !d_get_del. keq. reflexivity.
+    - rewrite !d_get_del. keq. reflexivity.
+    - rewrite !d_get_del. keq. reflexivity.
+    - rewrite !d_get_del. keq. unfold load. cbn [pm_filename]. rewrite HF. reflexivity.
+  Qed.
+
+  (* save . load . save in terms of the ORIGINAL model: the list-level form of
+     Proofs/C03.v idempotent (same side conditions) *)
+  Lemma idempotent_doc cdeps csem rsem M :
+    pm_ok G cdeps M -> wf (pm_wb M) -> code_nonblank csem rsem ->
+    Inv (pm_wb M) (pm_sem csem rsem M) (pm_state M) -> no_eq_text M ->
+    exists M', roundtrip_pkl G cdeps csem rsem M = Ok M' /\
+      fst (to_text G M') =
+        d_del (d_del (d_del (fst (to_text G M)) k_cycles) k_cells) k_hash ++
+        [(k_cycles, TV (pm_cycles M)); (k_hash, TV (pm_hash M)); (k_cells, TCells (saved_cells G M))].
+  Proof.
+    intros OK WF CNB I NE.
+    destruct (idempotent G cdeps csem rsem M OK WF CNB I NE) as (M' & R & SC & _).
+    destruct (settings_roundtrip G cdeps csem rsem M OK I) as (M2 & R2 & C1 & _ & C3 & _).
+    rewrite R in R2. inversion R2. subst M2.
+    exists M'. split; [exact R|].
+    rewrite (loaded_doc_shape cdeps csem rsem _ M' (pm_filename M) R), C1, C3, SC; [reflexivity|].
+    unfold to_text. cbn [fst]. rewrite d_get_set. keq. reflexivity.
+  Qed.
 End Resave.
 
 (* the condition pm_extra M = None of C03_resave_partial is needed *)
@@ -203,3 +268,22 @@ Proof.
   - eexists. split; [reflexivity|]. vm_compute. repeat split. discriminate.
   - vm_compute. reflexivity.
 Qed.
+
+(* the key order of a save of the LOADED model differs from the original's even
+   with extra_data = None (the file name moves to the front): C03_idempotent's
+   "same content for every key" cannot be strengthened to "same list" *)
+Lemma idempotent_order_needed : exists G cdeps csem rsem M M',
+  pm_extra M = None /\ roundtrip_pkl G cdeps csem rsem M = Ok M' /\
+  map fst (fst (to_text G M)) = [k_cycles; k_hash; k_cells; k_filename] /\
+  map fst (fst (to_text G M')) = [k_filename; k_cycles; k_hash; k_cells].
+Proof.
+  exists G0, cdeps0, csem0, rsem0, (mk (VInt 3) None). eexists.
+  split; [reflexivity|]. split; [vm_compute; reflexivity|]. split; vm_compute; reflexivity.
+Qed.
+
+(* the hypotheses of loaded_doc_shape are met by the document of M_note *)
+Example loaded_doc_hypotheses_satisfiable :
+  exists M', from_text G0 cdeps0 csem0 rsem0 (fst (to_text G0 M_note)) = Ok M' /\
+    d_get (fst (to_text G0 M_note)) k_filename = Some (TV (VStr [119%Z])) /\
+    map fst (fst (to_text G0 M')) = [k_note; k_filename; k_cycles; k_hash; k_cells].
+Proof. eexists. split; [vm_compute; reflexivity|]. split; vm_compute; reflexivity. Qed.
